@@ -2,7 +2,9 @@
    All statements proved (Qed) against the corrected Path.v (lex_append_ext), except candidates_are_sources,
    which is FALSE as stated (stem `..`): see candidates_are_sources_weaker / candidates_first_is_source /
    candidates_second_needs.
-   Strings: DOT = 46 ('.'), TXTPP_EXT = c_txtpp_ext = "txtpp" = [116;120;116;112;112]. *)
+   Strings: DOT = 46 ('.'), TXTPP_EXT = c_txtpp_ext = "txtpp" = [116;120;116;112;112].
+   Since fix F8 `remove_txtpp` refuses (None) the sources whose stem is `.` (`..txtpp`, `..txtpp.md`, ...):
+   see dot_stem, remove_txtpp_defined, remove_txtpp_none_iff, dot_stem_spec, dot_stem_sources_are_refused. *)
 Require Import Txtpp.Str Txtpp.Consts Txtpp.Path Txtpp.proofs.StrFacts.
 From Coq Require Import Lia.
 
@@ -221,6 +223,47 @@ Proof.
   rewrite rev_involutive. reflexivity.
 Qed.
 
+(* a stem name is acceptable unless it is `.` *)
+Definition name_ok (s : name) : bool := negb (str_eqb s [DOT]).
+
+Lemma name_ok_true s : name_ok s = true <-> s <> [DOT].
+Proof.
+  unfold name_ok. split.
+  - intros H E. subst s. rewrite str_eqb_refl in H. discriminate.
+  - intros H. destruct (str_eqb s [DOT]) eqn:E; [|reflexivity].
+    apply str_eqb_eq in E. contradiction.
+Qed.
+
+Lemma name_ok_false s : name_ok s = false <-> s = [DOT].
+Proof.
+  unfold name_ok. split.
+  - intros H. destruct (str_eqb s [DOT]) eqn:E; [|discriminate]. apply str_eqb_eq. exact E.
+  - intros ->. rewrite str_eqb_refl. reflexivity.
+Qed.
+
+Lemma stem_ok_snoc dir s : stem_ok (dir ++ [s]) = name_ok s.
+Proof. unfold stem_ok, name_ok. rewrite rev_unit. reflexivity. Qed.
+
+(* the stem of a source name: what is left after removing the `txtpp` extension and
+   (in the `stem.txtpp.ext` shape) the own extension *)
+Definition stem_of_name (n : name) : name :=
+  let a := fst (split_ext n) in
+  match snd (split_ext a) with
+  | Some e => if str_eqb e TXTPP_EXT then fst (split_ext a) else a
+  | None => a
+  end.
+
+(* the stem is `.`: such a source is refused *)
+Definition dot_stem_name (n : name) : bool := negb (name_ok (stem_of_name n)).
+Definition dot_stem (p : lexpath) : bool :=
+  match rev p with
+  | n :: _ => dot_stem_name n
+  | [] => false
+  end.
+
+Lemma dot_stem_snoc dir n : dot_stem (dir ++ [n]) = dot_stem_name n.
+Proof. unfold dot_stem. rewrite rev_unit. reflexivity. Qed.
+
 (* the output name of a source name *)
 Definition remove_name (n : name) : option name :=
   if negb (is_txtpp_name n) then None else
@@ -228,13 +271,14 @@ Definition remove_name (n : name) : option name :=
   match snd (split_ext a) with
   | Some e =>
     if str_eqb e TXTPP_EXT then
+      if negb (name_ok (fst (split_ext a))) then None else
       match snd (split_ext n) with
       | Some [] => Some (fst (split_ext a))
       | Some self_ext => Some (nappend (fst (split_ext a)) self_ext)
       | None => None
       end
-    else Some a
-  | None => Some a
+    else if name_ok a then Some a else None
+  | None => if name_ok a then Some a else None
   end.
 
 Lemma remove_txtpp_snoc dir n :
@@ -244,9 +288,11 @@ Proof.
   rewrite is_txtpp_file_snoc.
   destruct (negb (is_txtpp_name n)); [reflexivity|].
   cbv zeta.
-  rewrite !lex_set_extension_snoc, !lex_extension_snoc, !next_eq, !nset_nil.
-  destruct (snd (split_ext (fst (split_ext n)))) as [e|]; [|reflexivity].
-  destruct (str_eqb e TXTPP_EXT); [|reflexivity].
+  rewrite !lex_set_extension_snoc, !lex_extension_snoc, !next_eq, !nset_nil, !stem_ok_snoc.
+  destruct (snd (split_ext (fst (split_ext n)))) as [e|];
+    [|destruct (name_ok (fst (split_ext n))); reflexivity].
+  destruct (str_eqb e TXTPP_EXT); [|destruct (name_ok (fst (split_ext n))); reflexivity].
+  destruct (negb (name_ok (fst (split_ext (fst (split_ext n)))))); [reflexivity|].
   destruct (snd (split_ext n)) as [[|c se]|]; [reflexivity| |reflexivity].
   rewrite lex_append_ext_snoc. reflexivity.
 Qed.
@@ -264,6 +310,9 @@ Proof.
 Qed.
 
 Lemma nodot_ne_dotdot n : ~ In DOT n -> n <> dotdot.
+Proof. intros H ->. apply H. left. reflexivity. Qed.
+
+Lemma nodot_ne_dot n : ~ In DOT n -> n <> [DOT].
 Proof. intros H ->. apply H. left. reflexivity. Qed.
 
 Lemma len_ne_dotdot n : length n <> 2%nat -> n <> dotdot.
@@ -372,13 +421,13 @@ Proof.
 Qed.
 
 Lemma remove_name_last stem :
-  stem <> [] ->
+  stem <> [] -> stem <> [DOT] ->
   (forall s', s' <> [] -> stem <> s' ++ DOT :: TXTPP_EXT) ->
   remove_name (stem ++ DOT :: TXTPP_EXT) = Some stem.
 Proof.
-  intros Hs H. unfold remove_name.
+  intros Hs Hd H. unfold remove_name. apply name_ok_true in Hd.
   rewrite is_txtpp_name_last by exact Hs. cbn [negb]. cbv zeta.
-  rewrite split_ext_stem_txtpp by exact Hs. cbn [fst snd].
+  rewrite split_ext_stem_txtpp by exact Hs. cbn [fst snd]. rewrite Hd.
   destruct (split_ext stem) as [s [e|]] eqn:E; cbn [fst snd]; [|reflexivity].
   destruct (str_eqb e TXTPP_EXT) eqn:Ee; [|reflexivity].
   exfalso. apply str_eqb_eq in Ee. subst e.
@@ -387,26 +436,85 @@ Proof.
 Qed.
 
 Lemma remove_name_mid s e :
-  s <> [] -> ~ In DOT e ->
+  s <> [] -> s <> [DOT] -> ~ In DOT e ->
   remove_name (s ++ DOT :: TXTPP_EXT ++ DOT :: e) =
   Some (match e with [] => s | _ => nappend s e end).
 Proof.
-  intros Hs He. unfold remove_name.
+  intros Hs Hd He. unfold remove_name. apply name_ok_true in Hd.
   rewrite is_txtpp_name_mid by assumption. cbn [negb]. cbv zeta.
   rewrite split_ext_mid by assumption. cbn [fst snd].
   rewrite split_ext_stem_txtpp by exact Hs. cbn [fst snd].
-  rewrite str_eqb_refl. destruct e; reflexivity.
+  rewrite str_eqb_refl, Hd. cbn [negb]. destruct e; reflexivity.
 Qed.
 
-Lemma remove_name_defined n : (exists m, remove_name n = Some m) <-> is_txtpp_name n = true.
+(* ... and with the stem `.` the name is refused *)
+Lemma remove_name_mid_dot e :
+  ~ In DOT e -> remove_name ([DOT] ++ DOT :: TXTPP_EXT ++ DOT :: e) = None.
 Proof.
-  unfold remove_name. destruct (is_txtpp_name n) eqn:T; cbn [negb]; cbv zeta.
-  - split; [reflexivity | intros _].
-    apply is_txtpp_name_true in T. destruct T as (a & e & E & _). rewrite E. cbn [fst snd].
-    destruct (snd (split_ext a)) as [e2|]; [|eexists; reflexivity].
-    destruct (str_eqb e2 TXTPP_EXT); [|eexists; reflexivity].
-    destruct e; eexists; reflexivity.
-  - split; [intros [m H]; discriminate | discriminate].
+  intros He. unfold remove_name.
+  rewrite is_txtpp_name_mid; [|discriminate|exact He]. cbn [negb]. cbv zeta.
+  rewrite split_ext_mid; [|discriminate|exact He]. cbn [fst snd].
+  rewrite split_ext_stem_txtpp by discriminate. cbn [fst snd].
+  rewrite str_eqb_refl. reflexivity.
+Qed.
+
+Lemma remove_name_last_dot : remove_name ([DOT] ++ DOT :: TXTPP_EXT) = None.
+Proof. vm_compute. reflexivity. Qed.
+
+(* the stem of the two source shapes *)
+Lemma stem_of_name_mid s e :
+  s <> [] -> ~ In DOT e -> stem_of_name (s ++ DOT :: TXTPP_EXT ++ DOT :: e) = s.
+Proof.
+  intros Hs He. unfold stem_of_name. cbv zeta.
+  rewrite split_ext_mid by assumption. cbn [fst snd].
+  rewrite split_ext_stem_txtpp by exact Hs. cbn [fst snd].
+  rewrite str_eqb_refl. reflexivity.
+Qed.
+
+Lemma stem_of_name_last stem :
+  stem <> [] -> (forall s', s' <> [] -> stem <> s' ++ DOT :: TXTPP_EXT) ->
+  stem_of_name (stem ++ DOT :: TXTPP_EXT) = stem.
+Proof.
+  intros Hs H. unfold stem_of_name. cbv zeta.
+  rewrite split_ext_stem_txtpp by exact Hs. cbn [fst snd].
+  destruct (split_ext stem) as [s [e|]] eqn:E; cbn [fst snd]; [|reflexivity].
+  destruct (str_eqb e TXTPP_EXT) eqn:Ee; [|reflexivity].
+  exfalso. apply str_eqb_eq in Ee. subst e.
+  apply split_ext_some_inv in E. destruct E as (E & Hs' & _).
+  exact (H s Hs' E).
+Qed.
+
+(* remove_name answers exactly when the name is a source whose stem is not `.` *)
+Lemma remove_name_none_iff n :
+  remove_name n = None <-> is_txtpp_name n = false \/ dot_stem_name n = true.
+Proof.
+  unfold remove_name, dot_stem_name, stem_of_name.
+  destruct (is_txtpp_name n) eqn:T; cbn [negb]; cbv zeta.
+  2:{ split; [intros _; left; reflexivity | reflexivity]. }
+  apply is_txtpp_name_true in T. destruct T as (a & e & E & _). rewrite E. cbn [fst snd].
+  destruct (snd (split_ext a)) as [e2|].
+  - destruct (str_eqb e2 TXTPP_EXT).
+    + destruct (name_ok (fst (split_ext a))); cbn [negb].
+      * split; [destruct e; discriminate | intros [H|H]; discriminate].
+      * split; [intros _; right; reflexivity | reflexivity].
+    + destruct (name_ok a); cbn [negb].
+      * split; [discriminate | intros [H|H]; discriminate].
+      * split; [intros _; right; reflexivity | reflexivity].
+  - destruct (name_ok a); cbn [negb].
+    + split; [discriminate | intros [H|H]; discriminate].
+    + split; [intros _; right; reflexivity | reflexivity].
+Qed.
+
+Lemma remove_name_defined n :
+  (exists m, remove_name n = Some m) <-> is_txtpp_name n = true /\ dot_stem_name n = false.
+Proof.
+  pose proof (remove_name_none_iff n) as N.
+  destruct (remove_name n) as [m|]; split.
+  - intros _. destruct (is_txtpp_name n); destruct (dot_stem_name n); try (split; reflexivity);
+      exfalso; (assert (X : Some m = None) by (apply N; auto)); discriminate.
+  - intros _. exists m. reflexivity.
+  - intros [m H]. discriminate.
+  - intros [H1 H2]. destruct N as [N _]. destruct (N eq_refl) as [X|X]; congruence.
 Qed.
 
 Lemma remove_name_shorter n m : remove_name n = Some m -> (length m < length n)%nat.
@@ -422,21 +530,22 @@ Proof.
       apply split_ext_some_inv in E2. destruct E2 as (Ea & _).
       assert (La : length a = (length s + 6)%nat).
       { rewrite Ea, app_length. simpl. lia. }
+      destruct (negb (name_ok s)); [discriminate|].
       destruct e as [|c e'].
       * intros H. injection H as <-. lia.
       * unfold nappend. destruct (is_normal s); intros H; injection H as <-; [|lia].
         rewrite app_length. simpl length in *. lia.
-    + intros H. injection H as <-. lia.
-  - intros H. injection H as <-. lia.
+    + destruct (name_ok a); [|discriminate]. intros H. injection H as <-. lia.
+  - destruct (name_ok a); [|discriminate]. intros H. injection H as <-. lia.
 Qed.
 
 (* a non-source name n (non-empty) is the output of n.txtpp *)
 Lemma cand1_ok n :
-  n <> [] -> is_txtpp_name n = false ->
+  n <> [] -> n <> [DOT] -> is_txtpp_name n = false ->
   is_txtpp_name (n ++ DOT :: TXTPP_EXT) = true /\ remove_name (n ++ DOT :: TXTPP_EXT) = Some n.
 Proof.
-  intros Hn T. split; [apply is_txtpp_name_last; exact Hn|].
-  apply remove_name_last; [exact Hn|].
+  intros Hn Hd T. split; [apply is_txtpp_name_last; exact Hn|].
+  apply remove_name_last; [exact Hn|exact Hd|].
   intros s' Hs' E.
   assert (T' : is_txtpp_name n = true).
   { apply is_txtpp_name_true. exists s', TXTPP_EXT. split; [|left; reflexivity].
@@ -519,43 +628,44 @@ Proof. rewrite !is_txtpp_file_snoc. reflexivity. Qed.
 
 (* general: stem.txtpp -> stem whenever stem's own last extension is not txtpp (stem may contain dots) *)
 Lemma remove_txtpp_last_gen dir stem :
-  stem <> [] ->
+  stem <> [] -> stem <> [DOT] ->
   (forall s', s' <> [] -> stem <> s' ++ DOT :: TXTPP_EXT) ->
   remove_txtpp (dir ++ [stem ++ DOT :: TXTPP_EXT]) = Some (dir ++ [stem]).
 Proof.
-  intros Hs H. rewrite remove_txtpp_snoc, remove_name_last by assumption. reflexivity.
+  intros Hs Hd H. rewrite remove_txtpp_snoc, remove_name_last by assumption. reflexivity.
 Qed.
 
 (* general: stem.txtpp.ext -> stem.ext; the stem keeps its own dots (my.file.txtpp.md -> my.file.md).
-   Minimal hypotheses: ext may even be `txtpp`, and stem may itself end in `.txtpp`. *)
+   Minimal hypotheses: ext may even be `txtpp`, and stem may itself end in `.txtpp`;
+   the stem must not be `.` (then the source is refused: dot_stem_sources_are_refused). *)
 Theorem remove_txtpp_mid_gen dir stem ext :
-  stem <> [] -> is_normal stem = true -> ext <> [] -> ~ In DOT ext ->
+  stem <> [] -> stem <> [DOT] -> is_normal stem = true -> ext <> [] -> ~ In DOT ext ->
   remove_txtpp (dir ++ [stem ++ DOT :: TXTPP_EXT ++ DOT :: ext]) = Some (dir ++ [stem ++ DOT :: ext]).
 Proof.
-  intros Hs Hn He Hd. rewrite remove_txtpp_snoc, remove_name_mid by assumption.
+  intros Hs Hsd Hn He Hd. rewrite remove_txtpp_snoc, remove_name_mid by assumption.
   destruct ext as [|c ext']; [contradiction|].
   unfold nappend. rewrite Hn. reflexivity.
 Qed.
 (* as requested; `ext <> TXTPP_EXT` and the last hypothesis are superfluous (see remove_txtpp_mid_gen) *)
 Theorem remove_txtpp_mid dir stem ext :
-  stem <> [] -> is_normal stem = true -> ext <> [] -> ~ In DOT ext -> ext <> TXTPP_EXT ->
+  stem <> [] -> stem <> [DOT] -> is_normal stem = true -> ext <> [] -> ~ In DOT ext -> ext <> TXTPP_EXT ->
   (forall s', s' <> [] -> stem <> s' ++ DOT :: TXTPP_EXT) ->
   remove_txtpp (dir ++ [stem ++ DOT :: TXTPP_EXT ++ DOT :: ext]) = Some (dir ++ [stem ++ DOT :: ext]).
-Proof. intros Hs Hn He Hd _ _. apply remove_txtpp_mid_gen; assumption. Qed.
+Proof. intros Hs Hsd Hn He Hd _ _. apply remove_txtpp_mid_gen; assumption. Qed.
 (* stem.txtpp. (empty last extension) -> stem *)
 Theorem remove_txtpp_mid_trailing_dot dir stem :
-  stem <> [] ->
+  stem <> [] -> stem <> [DOT] ->
   remove_txtpp (dir ++ [stem ++ DOT :: TXTPP_EXT ++ [DOT]]) = Some (dir ++ [stem]).
 Proof.
-  intros Hs. rewrite remove_txtpp_snoc.
-  rewrite (remove_name_mid stem [] Hs (fun H => H)). reflexivity.
+  intros Hs Hd. rewrite remove_txtpp_snoc.
+  rewrite (remove_name_mid stem [] Hs Hd (fun H => H)). reflexivity.
 Qed.
 (* `...txtpp.e`: the stem `..` has no file name, nothing is appended *)
 Theorem remove_txtpp_mid_dotdot dir ext :
   ~ In DOT ext ->
   remove_txtpp (dir ++ [dotdot ++ DOT :: TXTPP_EXT ++ DOT :: ext]) = Some (dir ++ [dotdot]).
 Proof.
-  intros Hd. rewrite remove_txtpp_snoc, remove_name_mid; [|discriminate|exact Hd].
+  intros Hd. rewrite remove_txtpp_snoc, remove_name_mid; [|discriminate|discriminate|exact Hd].
   destruct ext as [|c ext']; [reflexivity|].
   unfold nappend. replace (is_normal dotdot) with false; [reflexivity|].
   symmetry. apply is_normal_false. reflexivity.
@@ -568,6 +678,7 @@ Theorem remove_txtpp_shape1 dir foo ext :        (* foo.ext.txtpp -> foo.ext *)
 Proof.
   intros Hf Hfd He Hed Hne. rewrite app_dot_assoc. apply remove_txtpp_last_gen.
   - destruct foo; discriminate.
+  - destruct foo as [|x foo']; [contradiction|]. destruct foo'; [destruct ext; [contradiction|]|]; discriminate.
   - intros s' Hs' E. apply last_split_unique in E; [|exact Hed|exact nodot_txtpp].
     destruct E as [_ E]. contradiction.
 Qed.
@@ -576,33 +687,96 @@ Theorem remove_txtpp_shape2 dir foo ext :        (* foo.txtpp.ext -> foo.ext *)
   remove_txtpp (dir ++ [foo ++ DOT :: TXTPP_EXT ++ DOT :: ext]) = Some (dir ++ [foo ++ DOT :: ext]).
 Proof.
   intros Hf Hfd He Hed Hne. apply remove_txtpp_mid_gen; try assumption.
-  apply is_normal_true. apply nodot_ne_dotdot. exact Hfd.
+  - apply nodot_ne_dot. exact Hfd.
+  - apply is_normal_true. apply nodot_ne_dotdot. exact Hfd.
 Qed.
 Theorem remove_txtpp_shape3 dir foo :            (* foo.txtpp -> foo *)
   foo <> [] -> ~ In DOT foo ->
   remove_txtpp (dir ++ [foo ++ DOT :: TXTPP_EXT]) = Some (dir ++ [foo]).
 Proof.
-  intros Hf Hfd. apply remove_txtpp_last_gen; [exact Hf|].
+  intros Hf Hfd. apply remove_txtpp_last_gen; [exact Hf|apply nodot_ne_dot; exact Hfd|].
   intros s' _ E. apply Hfd. rewrite E. apply in_or_app. right. left. reflexivity.
 Qed.
 (* general: stem.txtpp -> stem whenever stem's own last extension is not txtpp (stem may contain dots) *)
 Theorem remove_txtpp_last dir stem :
-  stem <> [] -> is_normal (stem ++ DOT :: TXTPP_EXT) = true ->
+  stem <> [] -> stem <> [DOT] -> is_normal (stem ++ DOT :: TXTPP_EXT) = true ->
   (forall s', s' <> [] -> stem <> s' ++ DOT :: TXTPP_EXT) ->
   remove_txtpp (dir ++ [stem ++ DOT :: TXTPP_EXT]) = Some (dir ++ [stem]).
-Proof. intros Hs _ H. apply remove_txtpp_last_gen; assumption. Qed.
+Proof. intros Hs Hd _ H. apply remove_txtpp_last_gen; assumption. Qed.
 
 (* C10: the output is beside the source (only the last component changes), differs from the source,
-   and remove_txtpp is defined exactly on sources *)
-Theorem remove_txtpp_defined p : (exists q, remove_txtpp p = Some q) <-> is_txtpp_file p = true.
+   and remove_txtpp is defined exactly on the sources whose stem is not `.` *)
+Theorem remove_txtpp_defined p :
+  (exists q, remove_txtpp p = Some q) <-> is_txtpp_file p = true /\ dot_stem p = false.
 Proof.
   destruct (path_snoc_cases p) as [-> | (dir & n & ->)].
-  - cbn. split; [intros [q H]; discriminate | discriminate].
-  - rewrite remove_txtpp_snoc, is_txtpp_file_snoc, <- remove_name_defined.
+  - cbn. split; [intros [q H]; discriminate | intros [H _]; discriminate].
+  - rewrite remove_txtpp_snoc, is_txtpp_file_snoc, dot_stem_snoc, <- remove_name_defined.
     destruct (remove_name n) as [m|]; cbn [option_map].
     + split; intros _; eexists; reflexivity.
     + split; intros [x H]; discriminate.
 Qed.
+(* the direction that did not change: only sources have an output *)
+Theorem remove_txtpp_some_is_source p q : remove_txtpp p = Some q -> is_txtpp_file p = true.
+Proof. intros H. apply (remove_txtpp_defined p). exists q. exact H. Qed.
+Theorem remove_txtpp_none_iff p :
+  remove_txtpp p = None <-> is_txtpp_file p = false \/ dot_stem p = true.
+Proof.
+  destruct (path_snoc_cases p) as [-> | (dir & n & ->)].
+  - cbn. split; [intros _; left; reflexivity | reflexivity].
+  - rewrite remove_txtpp_snoc, is_txtpp_file_snoc, dot_stem_snoc, <- remove_name_none_iff.
+    destruct (remove_name n) as [m|]; cbn [option_map]; split; try discriminate; reflexivity.
+Qed.
+
+(* which sources have the stem `.`: exactly `..txtpp` and `..txtpp.e` (e without a dot; e may be empty or `txtpp`) *)
+Theorem dot_stem_spec dir n :
+  is_txtpp_file (dir ++ [n]) = true ->
+  (dot_stem (dir ++ [n]) = true <->
+   n = [DOT; DOT] ++ TXTPP_EXT \/ exists e, ~ In DOT e /\ n = [DOT; DOT] ++ TXTPP_EXT ++ DOT :: e).
+Proof.
+  rewrite is_txtpp_file_snoc, dot_stem_snoc. intros T. unfold dot_stem_name. split.
+  - intros H. apply (f_equal negb) in H. rewrite Bool.negb_involutive in H. cbn [negb] in H.
+    apply name_ok_false in H. revert H. unfold stem_of_name. cbv zeta.
+    apply is_txtpp_name_true in T. destruct T as (a & e & E & D). rewrite E. cbn [fst snd].
+    apply split_ext_some_inv in E. destruct E as (En & Ha & Hd & Hn).
+    destruct (split_ext a) as [s [e2|]] eqn:E2; cbn [fst snd].
+    + destruct (str_eqb e2 TXTPP_EXT) eqn:Ee.
+      * apply str_eqb_eq in Ee. subst e2. intros ->.
+        apply split_ext_some_inv in E2. destruct E2 as (Ea & _).
+        right. exists e. split; [exact Hd|]. rewrite En, Ea. rewrite <- app_assoc. reflexivity.
+      * intros ->. rewrite (split_ext_leading_dot [] (fun H => H)) in E2. discriminate E2.
+    + intros ->. left. destruct D as [-> | (_ & s' & X)]; [exact En | discriminate X].
+  - intros [-> | (e & He & ->)].
+    + vm_compute. reflexivity.
+    + change ([DOT; DOT] ++ TXTPP_EXT ++ DOT :: e) with ([DOT] ++ DOT :: TXTPP_EXT ++ DOT :: e).
+      rewrite stem_of_name_mid; [|discriminate|exact He]. reflexivity.
+Qed.
+
+(* fix F8: the sources `..txtpp`, `..txtpp.ext` (any extension without a dot, also the empty one) and
+   `..txtpp.txtpp`, in any directory, have no output path: the code derives `dir/.` (no file name) resp.
+   `<parent>/dir.ext` (not beside the source) and IOCtx::new refuses them *)
+Theorem dot_stem_sources_are_refused dir :
+  remove_txtpp (dir ++ [[DOT; DOT] ++ TXTPP_EXT]) = None /\
+  (forall ext, ~ In DOT ext -> remove_txtpp (dir ++ [[DOT; DOT] ++ TXTPP_EXT ++ DOT :: ext]) = None) /\
+  remove_txtpp (dir ++ [[DOT; DOT] ++ TXTPP_EXT ++ DOT :: TXTPP_EXT]) = None.
+Proof.
+  assert (M : forall ext, ~ In DOT ext ->
+              remove_txtpp (dir ++ [[DOT; DOT] ++ TXTPP_EXT ++ DOT :: ext]) = None).
+  { intros ext He. rewrite remove_txtpp_snoc.
+    change ([DOT; DOT] ++ TXTPP_EXT ++ DOT :: ext) with ([DOT] ++ DOT :: TXTPP_EXT ++ DOT :: ext).
+    rewrite remove_name_mid_dot by exact He. reflexivity. }
+  split; [|split; [exact M | apply M; exact nodot_txtpp]].
+  rewrite remove_txtpp_snoc.
+  change ([DOT; DOT] ++ TXTPP_EXT) with ([DOT] ++ DOT :: TXTPP_EXT).
+  rewrite remove_name_last_dot. reflexivity.
+Qed.
+(* ... while the neighbouring names keep their outputs: `..a.txtpp` -> `..a`, `.a.txtpp` -> `.a` *)
+Example dot_stem_neighbours_unchanged :
+  remove_txtpp [[100]; [DOT; DOT; 97] ++ DOT :: TXTPP_EXT] = Some [[100]; [DOT; DOT; 97]] /\
+  remove_txtpp [[100]; [DOT; 97] ++ DOT :: TXTPP_EXT] = Some [[100]; [DOT; 97]] /\
+  remove_txtpp [[100]; DOT :: TXTPP_EXT] = None /\
+  remove_txtpp [[100]; [DOT; DOT; DOT] ++ TXTPP_EXT] = Some [[100]; dotdot].
+Proof. vm_compute. repeat split; reflexivity. Qed.
 
 Lemma candidates_none_for_sources0 p : is_txtpp_file p = true -> txtpp_candidates p = [].
 Proof. intros H. unfold txtpp_candidates. rewrite H. reflexivity. Qed.
@@ -656,15 +830,16 @@ Proof.
   - split; [right; left; reflexivity | split; reflexivity].
 Qed.
 
+(* (n <> [DOT]: a lexical path has no `.` component; `..txtpp`, the candidate for `.`, is refused) *)
 Theorem candidates_first_is_source dir n c rest :
-  is_normal n = true -> n <> [] ->
+  is_normal n = true -> n <> [] -> n <> [DOT] ->
   txtpp_candidates (dir ++ [n]) = c :: rest ->
   is_txtpp_file c = true /\ remove_txtpp c = Some (dir ++ [n]).
 Proof.
-  intros Hn Hne. apply is_normal_true in Hn.
+  intros Hn Hne Hnd. apply is_normal_true in Hn.
   destruct (is_txtpp_name n) eqn:T.
   { rewrite candidates_none_for_sources0; [discriminate|]. rewrite is_txtpp_file_snoc. exact T. }
-  destruct (cand1_ok n Hne T) as [C1 C2].
+  destruct (cand1_ok n Hne Hnd T) as [C1 C2].
   assert (X : c = dir ++ [n ++ DOT :: TXTPP_EXT] ->
               is_txtpp_file c = true /\ remove_txtpp c = Some (dir ++ [n])).
   { intros ->. rewrite is_txtpp_file_snoc, remove_txtpp_snoc, C2. split; [exact C1 | reflexivity]. }
@@ -677,12 +852,14 @@ Qed.
 Theorem candidates_are_sources_weaker dir n c :
   is_normal n = true -> n <> [] -> (forall a, n <> a ++ [DOT]) ->
   is_normal (fst (split_ext n)) = true ->            (* extra: the stem is not `..` *)
+  fst (split_ext n) <> [DOT] ->                      (* extra (fix F8): nor `.` (n is neither `.` nor `..e`) *)
   In c (txtpp_candidates (dir ++ [n])) ->
   is_txtpp_file c = true /\ remove_txtpp c = Some (dir ++ [n]).
 Proof.
-  intros Hnorm Hne Hnd Hsn Hin.
+  intros Hnorm Hne Hnd Hsn Hsd Hin.
+  assert (Hn1 : n <> [DOT]) by (intros ->; apply Hsd; reflexivity).
   destruct (txtpp_candidates (dir ++ [n])) as [|c1 rest] eqn:C; [destruct Hin|].
-  pose proof (candidates_first_is_source dir n c1 rest Hnorm Hne C) as H1.
+  pose proof (candidates_first_is_source dir n c1 rest Hnorm Hne Hn1 C) as H1.
   destruct Hin as [<- | Hin]; [exact H1|].
   destruct (is_txtpp_name n) eqn:T.
   { rewrite candidates_none_for_sources0 in C; [discriminate|]. rewrite is_txtpp_file_snoc. exact T. }
@@ -690,7 +867,7 @@ Proof.
   - rewrite (txtpp_candidates_ext dir n a e E T) in C.
     assert (C2 : rest = [dir ++ [a ++ DOT :: TXTPP_EXT ++ DOT :: e]]) by congruence.
     subst rest. clear C.
-    destruct Hin as [<- | []]. cbn [fst] in Hsn.
+    destruct Hin as [<- | []]. cbn [fst] in Hsn, Hsd.
     apply split_ext_some_inv in E. destruct E as (En & Ha & Hd & _).
     rewrite is_txtpp_file_snoc, remove_txtpp_snoc.
     split; [apply is_txtpp_name_mid; assumption|].
@@ -718,8 +895,10 @@ Proof.
   assert (C2 : c2 = dir ++ [a ++ DOT :: TXTPP_EXT ++ DOT :: e]) by congruence.
   subst c2. clear C.
   apply split_ext_some_inv in E. destruct E as (En & Ha & Hd & Hn).
+  destruct (is_normal a) eqn:Na; [reflexivity|].
+  assert (Had : a <> [DOT]) by (intros ->; discriminate Na).
   rewrite remove_txtpp_snoc, remove_name_mid by assumption. cbn [option_map].
-  destruct (is_normal a) eqn:Na; [reflexivity|]. intros R. exfalso.
+  intros R. exfalso.
   injection R as R. apply app_inv_head in R. injection R as R.
   assert (R' : a = n).
   { destruct e as [|x e']; [exact R|]. unfold nappend in R. rewrite Na in R. exact R. }
@@ -791,6 +970,7 @@ Proof.
   - pose proof (split_ext_some_inv _ _ _ E2) as (Ea & Hs & Hd2 & _).
     destruct (str_eqb e2 TXTPP_EXT) eqn:Ee.
     + apply str_eqb_eq in Ee. subst e2.
+      destruct (negb (name_ok s)); [discriminate|].
       destruct e as [|c e'].
       * intros H. injection H as <-. intros Tm.
         apply is_txtpp_name_shapes in Tm.
@@ -814,7 +994,7 @@ Proof.
         -- apply split_ext_some_inv in Et. destruct Et as (Es & Ht & _).
            exists t. split; [exact Ht|]. right. exists (c :: e'). split; [exact Hd|]. left.
            rewrite En, Ea, Es. norm_app. reflexivity.
-    + intros H. injection H as <-. intros Tm.
+    + destruct (name_ok a); [|discriminate]. intros H. injection H as <-. intros Tm.
       assert (He : e = TXTPP_EXT).
       { destruct D as [He | (_ & s' & Es')]; [exact He|].
         injection Es' as _ Es'. subst e2.
@@ -826,7 +1006,7 @@ Proof.
       * apply split_ext_some_inv in Et. destruct Et as (Es & Ht & _).
         exists t. split; [exact Ht|]. right. exists e2. split; [exact Hd2|]. right. left.
         rewrite En, Ea, Es, He. norm_app. reflexivity.
-  - intros H. injection H as <-. intros Tm.
+  - destruct (name_ok a); [|discriminate]. intros H. injection H as <-. intros Tm.
     apply is_txtpp_name_true in Tm. destruct Tm as (a' & e'' & E' & _).
     pose proof (eq_trans (eq_sym E2) E') as Y. discriminate.
 Qed.
@@ -845,10 +1025,10 @@ Proof.
 Qed.
 (* conversely each of the four shapes does give an output that is again a source (for a normal stem) *)
 Theorem double_shape1_output dir stem :
-  stem <> [] -> is_normal stem = true ->
+  stem <> [] -> stem <> [DOT] -> is_normal stem = true ->
   remove_txtpp (dir ++ [stem ++ DOT :: TXTPP_EXT ++ DOT :: TXTPP_EXT]) = Some (dir ++ [stem ++ DOT :: TXTPP_EXT]).
 Proof.
-  intros Hs Hn. apply remove_txtpp_mid_gen; [exact Hs | exact Hn | exact txtpp_ne_nil | exact nodot_txtpp].
+  intros Hs Hd Hn. apply remove_txtpp_mid_gen; [exact Hs | exact Hd | exact Hn | exact txtpp_ne_nil | exact nodot_txtpp].
 Qed.
 (* path strings *)
 Lemma strip_prefix_app0 b r : strip_prefix b (b ++ r) = Some r.
